@@ -256,7 +256,8 @@ def paths(P, b, fields):
             cur = st.ev(l)
             r = st.ev(x["r"])
             op = x.get("op", "")
-            new = A.add(cur, r) if op.startswith("+") else (A.sub(cur, r) if op.startswith("-") else (A.mul(cur, r) if op.startswith("*") else A.opaque()))
+            new = A.add(cur, r) if op.startswith("+") else (A.sub(cur, r) if op.startswith("-") else (A.mul(cur, r) if op.startswith("*") else
+                                                                                                      (A.atom(("fn", "div", A.freeze(cur), A.freeze(r))) if op.startswith("/") and cur is not A.TOP and r is not A.TOP else A.opaque())))
             if pl is not None and isinstance(pl, tuple) and pl[0] == self_pl:
                 st.store[pl] = new
             elif l.get("k") == "path" and ir.local_hid(l) is not None:
@@ -321,6 +322,9 @@ def paths(P, b, fields):
                 havoc(st)
             return [err, st]
         if mutating_call(x):
+            for y in ir.walk_nodes(x):
+                if y.get("k") == "mcall" and ir.local_hid(y["recv"]) == self_hid:
+                    st.facts.append(("called", y["name"]))
             havoc(st)
         if ir.diverges(x):
             st.done = "err"
@@ -487,3 +491,264 @@ def transform_rule(ck, P, rule):
             esc = [y["k"] for y in ir.walk_nodes(b["body"]) if y.get("k") in ("break", "continue", "ret", "if", "match")]
             ck.check(len(calls) == 1 and bool(over) and not adapt and not esc, rule, b["q"] + "|every-level", "the pyramid applies %s to every level box" % nm,
                      "the pyramid does not apply %s to every level (adaptors %s, control flow %s)" % (nm, adapt, esc), ir.loc(b))
+
+
+def _tail(b):
+    blk = ir.fn_block(b)
+    t = blk.get("tail") if blk.get("k") == "block" and "tail" in blk else blk
+    return ir.unparen(t)
+
+
+def _conj(c, out):
+    c = ir.unparen(c)
+    if c.get("k") == "bin" and c.get("op") == "&&":
+        _conj(c["l"], out)
+        _conj(c["r"], out)
+    else:
+        out.append(c)
+
+
+def box_core_rules(ck, P, rule="R-BOX"):
+    """The handful of TileBBox primitives every reader, stream and filter goes through, each decided on the shape of its code
+    (terms from affine.py, paths from paths()):  intersect_bbox = per-axis [max of the low edges, min of the high edges] when both boxes
+    hold tiles, empty otherwise;  contains2/3 = conjunction of the four inclusive edge comparisons (and the level);  width/height =
+    high - low + 1 (0 when inverted);  count_tiles = width * height;  get_tile_index2/3 = (y - y_min) * width + (x - x_min) behind a
+    containment guard;  get_coord2/3_by_index = (index % width + x_min, index / width + y_min);  iter_coords = rows outside, columns
+    inside, TileCoord3::new(x, y, level);  scale_down divides all four edges by the scale."""
+    def f(name):
+        r = [b for b in P.bodies if b["q"].endswith("tile_bbox::TileBBox::" + name)]
+        return r[0] if r else None
+    names = ("intersect_bbox", "contains2", "contains3", "width", "height", "count_tiles", "get_tile_index2", "get_tile_index3", "get_coord2_by_index", "get_coord3_by_index", "iter_coords", "scale_down")
+    fns = {n: f(n) for n in names}
+    if not ck.anchor(rule, "TileBBox primitives", [v for v in fns.values() if v], len(names)):
+        return
+    fields = ["level", "max", "x_min", "y_min", "x_max", "y_max"]
+    # ---- intersect_bbox
+    b = fns["intersect_bbox"]
+    r = paths(P, b, fields)
+    sp = r["self"]
+    params = [p for p in b.get("params", ()) if p.get("k") == "bind" and p.get("name") != "self"]
+    other = (params[0]["hid"], params[0]["name"])
+    bad, n_live, n_empty = [], 0, 0
+    for st in r["paths"]:
+        if st.done == "err":
+            continue
+        preds = [x for x in st.facts if x[0] == "pred" and x[1] == "is_empty"]
+        both = any(x[2] == sp and x[3] is False for x in preds) and any(x[2] == other and x[3] is False for x in preds)
+        if both:
+            n_live += 1
+            for fld, low in EDGES:
+                fin = st.store.get((sp, "." + fld), A.sym((sp, "." + fld)))
+                want = (A.tmax if low else A.tmin)(A.sym((sp, "." + fld)), A.sym((other, "." + fld)))
+                if not A.eq(fin, want):
+                    bad.append("%s ends as `%s`, expected `%s`" % (fld, A.show(fin), A.show(want)))
+                    break
+        else:
+            n_empty += 1
+            if not any(x[0] == "called" and x[1] == "set_empty" for x in st.facts):
+                bad.append("a path on which one box may be empty does not empty the result")
+    ck.check(n_live >= 1 and n_empty >= 1 and not bad, rule, b["q"], "intersection: [max of low edges, min of high edges] per axis when both hold tiles (%d path(s)), empty otherwise (%d)" % (n_live, n_empty),
+             "intersect_bbox is not the per-axis intersection: %s" % (bad[0] if bad else "paths live=%d empty=%d" % (n_live, n_empty)), ir.loc(b))
+    # ---- contains
+    for nm, with_z in (("contains2", False), ("contains3", True)):
+        b = fns[nm]
+        c = []
+        _conj(_tail(b), c)
+        got = set()
+        for x in c:
+            cn = ir.cmp_norm(x)
+            if cn is not None:
+                got.add(cn)
+        cp = [p for p in b.get("params", ()) if p.get("k") == "bind" and p.get("name") != "self"][0]["name"]
+        want = set()
+        for ax in ("x", "y"):
+            want.add(("%s.%s" % (cp, ax), ">=", "self.%s_min" % ax))
+            want.add(("%s.%s" % (cp, ax), "<=", "self.%s_max" % ax))
+        if with_z:
+            want.add(("%s.z" % cp, "==", "self.level"))
+
+        def canon(t):
+            a_, op, b_ = t
+            if a_.startswith("self."):
+                a_, b_ = b_, a_
+                op = ir._FLIP[op]
+            return (a_, op, b_)
+        ck.check({canon(t) for t in got} == want and len(c) == len(want), rule, b["q"], "%s: %d inclusive comparisons, all required" % (nm, len(want)),
+                 "%s is not the conjunction of the inclusive edge comparisons: %s" % (nm, sorted({canon(t) for t in got} ^ want)), ir.loc(b))
+    # ---- width / height
+    for nm, lo, hi in (("width", "x_min", "x_max"), ("height", "y_min", "y_max")):
+        b = fns[nm]
+        t = _tail(b)
+        okw = False
+        if t.get("k") == "if" and "else" in t:
+            cn = ir.cmp_norm(t["c"])
+            inv = cn in (("self." + hi, "<", "self." + lo), ("self." + lo, ">", "self." + hi))
+            env = A.Env()
+            a_, e_ = A.ev(t["then"], env), A.ev(t["else"], env)
+            sp_ = A.ev_place(next(y for y in ir.walk_nodes(t["c"]) if y.get("k") == "path" and y.get("r") == "local"), env)
+            want = A.add(A.sub(A.sym((sp_, "." + hi)), A.sym((sp_, "." + lo))), A.const(1))
+            okw = inv and A.as_const(a_) == 0 and A.eq(e_, want)
+        ck.check(okw, rule, b["q"], "%s = %s - %s + 1, and 0 for an inverted box" % (nm, hi, lo), "%s is not high - low + 1 (0 when inverted)" % nm, ir.loc(b))
+    b = fns["count_tiles"]
+    t = A.show_stable(A.ev(_tail(b), A.Env()))
+    ck.check(t in ("self.height()*self.width()", "self.width()*self.height()"), rule, b["q"], "count_tiles = width() * height()", "count_tiles is `%s`" % t, ir.loc(b))
+    # ---- index <-> coordinate
+    for nm in ("get_tile_index2", "get_tile_index3"):
+        b = fns[nm]
+        cp = [p for p in b.get("params", ()) if p.get("k") == "bind" and p.get("name") != "self"][0]
+        env = A.Env()
+        A.run(ir.stmts_of(ir.fn_block(b)), env)
+        oks = [y for y in ir.walk_nodes(ir.fn_block(b)) if y.get("k") == "call" and (y.get("q") or "").endswith("Result::Ok::{Ctor#0}")]
+        idx = A.ev(oks[-1]["a"][0], env) if oks else A.TOP
+        s_ = ((next(y["hid"] for y in ir.walk_nodes(b["body"]) if y.get("k") == "path" and y.get("name") == "self"), "self"))
+        c_ = (cp["hid"], cp["name"])
+        S = lambda fl: A.sym((s_, "." + fl))      # noqa: E731
+        C = lambda fl: A.sym((c_, "." + fl))      # noqa: E731
+        w1 = A.add(A.sub(S("x_max"), S("x_min")), A.const(1))
+        w2 = A.sym((s_, ".width()"))
+        wants = [A.add(A.mul(A.sub(C("y"), S("y_min")), w), A.sub(C("x"), S("x_min"))) for w in (w1, w2)]
+        guard = any(y.get("k") == "if" and ir.diverges(y["then"]) and ir.contains(y["c"], lambda z: z.get("k") == "mcall" and z.get("name") in ("contains2", "contains3")) and
+                    ir.unparen(y["c"]).get("k") == "un" for y in ir.walk_nodes(ir.fn_block(b)))
+        ck.check(any(A.eq(idx, w) for w in wants) and guard, rule, b["q"], "index = (y - y_min) * width + (x - x_min), refused for coordinates outside the box",
+                 "%s computes `%s`%s" % (nm, A.show(idx), "" if guard else " without the containment guard"), ir.loc(b))
+    for nm in ("get_coord2_by_index", "get_coord3_by_index"):
+        b = fns[nm]
+        ip = [p for p in b.get("params", ()) if p.get("k") == "bind" and p.get("name") != "self"][0]
+        env = A.Env()
+        A.run(ir.stmts_of(ir.fn_block(b)), env)
+        ctor = [y for y in ir.walk_nodes(ir.fn_block(b)) if y.get("k") == "call" and (y.get("q") or "").endswith(("TileCoord2::new", "TileCoord3::new"))]
+        okc, shown = False, "?"
+        if ctor:
+            xs, ys = A.show_stable(A.ev(ctor[0]["a"][0], env)), A.show_stable(A.ev(ctor[0]["a"][1], env))
+            i_ = ip["name"]
+            shown = "(%s, %s)" % (xs, ys)
+            okc = xs in ("rem(%s, self.width()) + self.x_min" % i_, "self.x_min + rem(%s, self.width())" % i_) and ys in ("div(%s, self.width()) + self.y_min" % i_, "self.y_min + div(%s, self.width())" % i_)
+            if nm.endswith("3_by_index"):
+                okc = okc and A.show_stable(A.ev(ctor[0]["a"][2], env)) == "self.level"
+        ck.check(okc, rule, b["q"], "coordinate = (index % width + x_min, index / width + y_min)", "%s builds %s" % (nm, shown), ir.loc(b))
+    # ---- iter_coords
+    b = fns["iter_coords"]
+    cpd = [y for y in ir.walk_nodes(b["body"]) if y.get("k") == "mcall" and y.get("name") == "cartesian_product"]
+    oki = False
+    if len(cpd) == 1:
+        lets = {y["pat"]["hid"]: y["init"] for y in ir.walk_nodes(b["body"]) if y.get("k") == "let" and "init" in y and y["pat"].get("k") == "bind"}
+
+        def flds(e):
+            e = ir.strip(e)
+            if ir.local_hid(e) in lets:
+                e = lets[ir.local_hid(e)]
+            return [y.get("name") for y in ir.walk_nodes(e) if y.get("k") == "field"]
+        outer, inner = flds(cpd[0]["recv"]), flds(cpd[0]["a"][0])
+        clo = [y for y in ir.walk_nodes(b["body"]) if y.get("k") == "closure"]
+        ctor = [y for y in ir.walk_nodes(b["body"]) if y.get("k") == "call" and (y.get("q") or "").endswith("TileCoord3::new")]
+        if clo and ctor:
+            ps = [x["hid"] for p_ in clo[0]["params"] for x in ir.pat_binds(p_)]
+            oki = outer == ["y_min", "y_max"] and inner == ["x_min", "x_max"] and len(ps) == 2 and ir.local_hid(ctor[0]["a"][0]) == ps[1] and ir.local_hid(ctor[0]["a"][1]) == ps[0] and \
+                ir.place_str(ctor[0]["a"][2]) == "self.level"
+    ck.check(oki, rule, b["q"], "rows y_min..=y_max outside, columns x_min..=x_max inside, TileCoord3::new(x, y, level)", "iter_coords does not enumerate the box row by row as (x, y, level)", ir.loc(b))
+    box_ctor_rules(ck, P, rule)
+    # ---- scale_down
+    b = fns["scale_down"]
+    r = paths(P, b, fields)
+    sp = r["self"]
+    sc = [p for p in b.get("params", ()) if p.get("k") == "bind" and p.get("name") != "self"][0]
+    oks_, why = True, ""
+    live = [st for st in r["paths"] if st.done != "err"]
+    for st in live:
+        for fld, _ in EDGES:
+            fin = st.store.get((sp, "." + fld))
+            want = A.atom(("fn", "div", A.freeze(A.sym((sp, "." + fld))), A.freeze(A.local_sym(sc))))
+            if not A.eq(fin, want):
+                oks_, why = False, "%s ends as %s" % (fld, A.show(fin))
+    ck.check(bool(live) and oks_, rule, b["q"], "all four edges are divided by the scale", "scale_down does not divide every edge by the scale (%s)" % why, ir.loc(b))
+
+
+def box_ctor_rules(ck, P, rule="R-BOX"):
+    """constructors and predicates of TileBBox:  is_empty = x_max < x_min || y_max < y_min;  new accepts exactly level <= 31, edges
+    <= 2^level - 1 and min <= max per axis;  new_full = (0, 0, max, max);  new_empty is empty by its own definition of is_empty;
+    the level guards of include_bbox / intersect_bbox / include_coord3 report an error exactly for DIFFERENT levels;  include_coord3
+    hands (coord.x, coord.y) to include_coord."""
+    from . import census
+
+    def f(name):
+        r = [b for b in P.bodies if b["q"].endswith("tile_bbox::TileBBox::" + name)]
+        return r[0] if r else None
+    names = ("is_empty", "new", "new_full", "new_empty", "include_bbox", "intersect_bbox", "include_coord3")
+    fns = {n: f(n) for n in names}
+    if not ck.anchor(rule, "TileBBox constructors / guards", [v for v in fns.values() if v], len(names)):
+        return
+    b = fns["is_empty"]
+    t = _tail(b)
+    oke = False
+    if t.get("k") == "bin" and t.get("op") == "||":
+        got = {ir.cmp_norm(t["l"]), ir.cmp_norm(t["r"])}
+
+        def canon(c):
+            if c is None:
+                return None
+            a_, op, b_ = c
+            if a_.endswith("_min"):
+                a_, b_, op = b_, a_, ir._FLIP[op]
+            return (a_, op, b_)
+        oke = {canon(c) for c in got} == {("self.x_max", "<", "self.x_min"), ("self.y_max", "<", "self.y_min")}
+    ck.check(oke, rule, b["q"], "is_empty = x_max < x_min || y_max < y_min", "is_empty is not `x_max < x_min || y_max < y_min`", ir.loc(b))
+    # new: the accepted region, read off the facts that hold where Ok is produced
+    b = fns["new"]
+    oks = census.nodes_with_facts(ir.fn_block(b), lambda y: y.get("k") == "call" and (y.get("q") or "").endswith("Result::Ok::{Ctor#0}"))
+    okn, shown = False, "?"
+    if oks:
+        fs = {tuple(x[1:]) for x in oks[-1][1] if x[0] == "cmp"}
+        ps = [x["name"] for p_ in b["params"] for x in ir.pat_binds(p_)]
+        lets = {y["pat"]["name"]: y for y in ir.walk_nodes(b["body"]) if y.get("k") == "let" and y["pat"].get("k") == "bind" and "init" in y}
+        shown = sorted(fs)
+        if len(ps) == 5:
+            lv, x0, y0, x1, y1 = ps
+            mx = [n_ for n_, y in lets.items() if A.show_stable(A.ev(y["init"], A.Env())) in ("-1 + pow(2, %s)" % lv, "-1 + shl(1, %s)" % lv)]
+            if mx:
+                want = {(lv, "<=", "31"), (x1, "<=", mx[0]), (y1, "<=", mx[0]), (x0, "<=", x1), (y0, "<=", y1)}
+
+                def can(t_):
+                    a_, op, b_ = t_
+                    return t_ if op in ("<=", "<", "==", "!=") else (b_, ir._FLIP[op], a_)
+                okn = {can(t_) for t_ in fs} == want
+    ck.check(okn, rule, b["q"], "TileBBox::new accepts exactly: level <= 31, x_max / y_max <= 2^level - 1, x_min <= x_max, y_min <= y_max",
+             "TileBBox::new accepts under %s" % (shown,), ir.loc(b))
+    b = fns["new_full"]
+    c = [y for y in ir.walk_nodes(b["body"]) if y.get("k") == "call" and (ir.callee(y) or "").endswith("TileBBox::new") and len(y.get("a", ())) == 5]
+    okf = False
+    if c:
+        env = A.Env()
+        A.run(ir.stmts_of(ir.fn_block(b)), env)
+        lv = [x for p_ in b["params"] for x in ir.pat_binds(p_)][0]["name"]
+        vals = [A.show_stable(A.ev(a_, env)) for a_ in c[0]["a"]]
+        okf = vals == [lv, "0", "0", "-1 + pow(2, %s)" % lv, "-1 + pow(2, %s)" % lv]
+    ck.check(okf, rule, b["q"], "new_full(level) = new(level, 0, 0, 2^level - 1, 2^level - 1)", "new_full does not span 0 ..= 2^level - 1 on both axes", ir.loc(b))
+    b = fns["new_empty"]
+    st = [y for y in ir.walk_nodes(b["body"]) if y.get("k") == "struct" and (y.get("q") or "").endswith("TileBBox")]
+    okm = False
+    if st:
+        env = A.Env()
+        A.run(ir.stmts_of(ir.fn_block(b)), env)
+        fv = {x["name"]: A.ev(x["e"], env) for x in st[0]["fields"]}
+        # empty by is_empty: x_max < x_min on at least one axis for every level: x_min - x_max is a positive constant or max + 1 - 0
+        d = A.sub(fv.get("x_min"), fv.get("x_max")) if fv.get("x_min") is not None else A.TOP
+        okm = A.as_const(fv.get("x_max")) == 0 and A.as_const(fv.get("y_max")) == 0 and A.eq(fv.get("x_min"), fv.get("y_min")) and A.eq(A.sub(fv["x_min"], fv.get("max")), A.const(1))
+    ck.check(okm, rule, b["q"], "new_empty: x_min = y_min = max + 1, x_max = y_max = 0 (empty for every level)", "new_empty does not build the documented empty box", ir.loc(b))
+    for nm in ("include_bbox", "intersect_bbox", "include_coord3"):
+        b = fns[nm]
+        errs = []
+        for n, parents, _m in ir.walk(ir.fn_block(b)):
+            if n.get("k") == "ret" and n.get("e") is not None and ir.contains(n["e"], lambda z: z.get("k") == "call" and (z.get("q") or "").endswith("Err::{Ctor#0}")):
+                for p_ in reversed(parents):
+                    if p_.get("k") == "if":
+                        errs.append(ir.cmp_norm(p_["c"], negate=not ir.contains(p_["then"], lambda z: z is n)))
+                        break
+        okg = len(errs) == 1 and errs[0] is not None and errs[0][1] == "!=" and {errs[0][0].rsplit(".", 1)[-1], errs[0][2].rsplit(".", 1)[-1]} <= {"level", "z"}
+        ck.check(okg, rule, b["q"] + "|level-guard", "%s reports an error exactly when the levels differ" % nm, "%s: the level guard is %s" % (nm, errs), ir.loc(b))
+    b = fns["include_coord3"]
+    c = [y for y in ir.walk_nodes(b["body"]) if y.get("k") == "mcall" and (ir.callee(y) or "").endswith("TileBBox::include_coord") and len(y.get("a", ())) == 2]
+    cp = [x for p_ in b["params"] for x in ir.pat_binds(p_) if x["name"] != "self"]
+    okd = len(c) == 1 and cp and ir.place_str(c[0]["a"][0]) == cp[0]["name"] + ".x" and ir.place_str(c[0]["a"][1]) == cp[0]["name"] + ".y"
+    from . import mvt
+    cnt = mvt.exit_counts(P, b, lambda y: 1 if (y.get("k") == "mcall" and (ir.callee(y) or "").endswith("TileBBox::include_coord")) else None)
+    ck.check(okd and cnt == {1}, rule, b["q"], "include_coord3 hands (coord.x, coord.y) to include_coord on every successful path", "include_coord3 does not include (coord.x, coord.y) exactly once", ir.loc(b))
